@@ -96,13 +96,13 @@ CHECKS['C15'] = dict(level=MC, ref='4 C15',
 CHECKS['C17'] = dict(level=MC, ref='4 C17',
     text='Serialize.tla is a state machine over serialisation FORMS (obj, dict, split, legacy, hdf5, done) tracking level and whether a pending permutation is still pending; TLC explores ALL routes to '
          'depth 6 (to_dict level 0..2 with/without resolve_ops, older-generation dict, split/combine repeatedly, numpy save/load, legacy save_to_dict, HDF5, from_dict with config none/same/other '
-         'symmetry/other statistics) for tensors, MPS, MPO, PEPS and the environments EnvCTM (with projectors), EnvBP, EnvBoundaryMPS, checks the outcome invariant and emits every terminal case. Each case is replayed on real objects (S->I) and TraceSerialize.tla decides: '
+         'symmetry/other statistics) for tensors, MPS, MPO, periodic MPO, PEPS and the environments EnvCTM (with projectors), EnvBP, EnvBoundaryMPS, checks the outcome invariant and emits every terminal case. Each case is replayed on real objects (S->I) and TraceSerialize.tla decides: '
          'outcome as the route implies (restored vs YastnError), restored object observationally identical (legs incl. fusion history, charge, dtype, values, geometry), same follow-up contraction, '
          'pending-permutation semantics; to_dict(meta=) is checked as an exactly linear, norm-preserving, invertible map that rejects tensors outside the layout.',
     note='bounded: 40 tensor variants (plain, complex, diagonal, hard/meta/nested fused, empty, scalar x 5 symmetries; lazily transposed or not), MPS plain/central block/non-unit factor in 3 symmetries, '
          'MPO, PEPS on 7 lattice types x 2 symmetries, 10 environments (EnvCTM after update_, EnvBP after iterate_, EnvBoundaryMPS; 2x2 obc and checkerboard, U1 / Z2) observed as state + every environment tensor / projector / '
          'boundary MPS / info, follow-up = measure_1site; the deprecated save_to_dict format of environments stores no projectors and recomputes the square-root messages of EnvBP on loading (not compared on that route); '
-         'quick replays a seeded 20% of case x variant for tensors and environments; MpoPBC, Peps2Layers, DoublePepsTensor not covered',
+         'quick replays a seeded 20% of case x variant for tensors and environments; periodic MPO (with a non-unit factor) through the dictionary routes only (the deprecated save_to_dict raises AttributeError for it, hdf5 is not offered); Peps2Layers, DoublePepsTensor not covered',
     technique='TLA+ state machine of serialisation routes (Serialize) + TLC exhaustive enumeration + replay of every terminal case into code + trace validation of observed outcomes')
 CHECKS['C04'] = dict(level=MC, ref='4 C04',
     text='svd / qr / eigh events inside recorded programs (operand possibly lazily transposed and fused hard/meta; Hermitian operands A A^+ with legs of different fusion history). TLC (TraceTensor + '
